@@ -1342,6 +1342,17 @@ impl ReceiverInner<ReceiverLink<Target>> {
         mut initial_remote_attach: Option<Attach>,
         is_reattaching: bool,
     ) -> Result<ReceiverAttachExchange, ReceiverResumeErrorKind> {
+        // Only a link that is no longer attached and has not been closed can be attached again.
+        // In any other state nothing is allocated for it, so that dropping the link afterwards
+        // does not send a detach for a handle that never carried its attach
+        if !matches!(
+            self.link.local_state,
+            super::state::LinkState::Unattached
+                | super::state::LinkState::Detached
+                | super::state::LinkState::DetachSent
+        ) {
+            return Err(ReceiverAttachError::IllegalState.into());
+        }
         self.reallocate_output_handle().await?;
         // The link's incoming channel has just been replaced: deliveries that were still waiting
         // in the old one are gone with it and must no longer be counted as waiting
